@@ -9,6 +9,16 @@ def arena_job(name, profile, prop, depth, devs, budget, tier, build="release", m
     return {"name": name, "bin": "bumpmc", "profile_build": build, "args": args, "replay_args": ["replay-arena", "--profile", profile, "--depth", str(depth)]}
 
 
+def grid_job(name, kind, prop, tier, budget=120, slab_mb=8, build="release", threads=None):
+    args = ["grid", "--kind", kind, "--prop", str(prop), "--tier", tier, "--budget-s", str(budget), "--slab-mb", str(slab_mb)]
+    if threads:
+        args += ["--threads", str(threads)]
+    return {"name": name, "bin": "bumpmc", "profile_build": build, "args": args, "replay_args": ["replay-grid", "--kind", kind, "--tier", tier, "--slab-mb", str(slab_mb)]}
+
+
+RULE_GRID = ("exhaustive enumeration of a finite case grid; every case is one independent execution on the code in /repo under the controlled global allocator; "
+             "distinct_nontrivial counts distinct observable outcomes (result class, allocator traffic, capacities) over the grid")
+
 ARENA_ASSUME = [
     "the controlled global allocator (Env) classifies chunk requests correctly (self-test at start-up) and its placement classes (exact 2-adic valuation of the base) cover every base alignment a legal allocator may return for alignments up to 4096",
     "addresses are ordinary x86-64 user-space addresses; wrap-around at the ends of the address space and 32-bit targets are not explored",
@@ -24,10 +34,10 @@ def plan(pid, tier):
     q = tier == "quick"
     P = {}
     if pid == "C01":
-        jobs = [arena_job("histories-core", "core", 1, 3, 1, 45 if q else 600, tier)]
+        jobs = [arena_job("histories-core", "core", 1, 3, 1, 45 if q else 600, tier), arena_job("layerA-every-offset", "layera", 1, 3, 1, 40, tier)]
         if not q:
             jobs = [arena_job("histories-core-d3-dev2", "core", 1, 3, 2, 300, tier), arena_job("histories-core-d4", "core", 1, 4, 1, 500, tier, min_aligns="1,8,16"),
-                    arena_job("histories-core-d3-dbg", "core", 1, 3, 1, 200, tier, build="dbg")]
+                    arena_job("histories-core-d3-dbg", "core", 1, 3, 1, 200, tier, build="dbg"), arena_job("layerA-every-offset-dev2", "layera", 1, 3, 2, 400, tier)]
         return {"level": "model_checking", "jobs": jobs, "owns_crashes": True, "rule": RULE_ARENA, "assumptions": ARENA_ASSUME,
                 "bounds": {"depth": 3 if q else 4, "deviations": 1 if q else 2, "min_align": [1, 2, 4, 8, 16]}, "build_profiles": ("release",) if q else ("release", "dbg")}
     if pid == "C02":
@@ -39,10 +49,12 @@ def plan(pid, tier):
         jobs = [arena_job("histories-ledger", "ledger", 3, 3, 1, 45, tier)] if q else [arena_job("histories-ledger-d3-dev2", "ledger", 3, 3, 2, 300, tier), arena_job("histories-ledger-d4", "ledger", 3, 4, 1, 500, tier, min_aligns="1,8,16")]
         return {"level": "model_checking", "jobs": jobs, "owns_crashes": True, "rule": RULE_ARENA, "assumptions": ARENA_ASSUME, "bounds": {"depth": 3 if q else 4, "deviations": 1 if q else 2}}
     if pid == "C04":
-        jobs = [arena_job("histories-core", "core", 4, 3, 1, 45 if q else 600, tier)]
+        jobs = [arena_job("histories-core", "core", 4, 3, 1, 45 if q else 600, tier), arena_job("layerA-every-offset", "layera", 4, 3, 1, 40, tier), grid_job("ctor-matrix", "ctor", 4, tier)]
         if not q:
-            jobs = [arena_job("histories-core-d3-dev2", "core", 4, 3, 2, 300, tier), arena_job("histories-core-d4", "core", 4, 4, 1, 500, tier, min_aligns="2,8,16")]
-        return {"level": "model_checking", "jobs": jobs, "owns_crashes": False, "rule": RULE_ARENA, "assumptions": ARENA_ASSUME, "bounds": {"depth": 3 if q else 4, "deviations": 1 if q else 2}}
+            jobs = [arena_job("histories-core-d3-dev2", "core", 4, 3, 2, 300, tier), arena_job("histories-core-d4", "core", 4, 4, 1, 500, tier, min_aligns="2,8,16"),
+                    arena_job("layerA-every-offset-dev2", "layera", 4, 3, 2, 400, tier), grid_job("ctor-matrix", "ctor", 4, tier), grid_job("ctor-matrix-dbg", "ctor", 4, tier, build="dbg")]
+        return {"level": "model_checking", "jobs": jobs, "owns_crashes": False, "rule": RULE_ARENA, "assumptions": ARENA_ASSUME, "bounds": {"depth": 3 if q else 4, "deviations": 1 if q else 2},
+                "build_profiles": ("release",) if q else ("release", "dbg")}
     if pid == "C06":
         jobs = [arena_job("histories-reset", "reset", 6, 3, 1, 45, tier)] if q else [arena_job("histories-reset-d4", "reset", 6, 4, 1, 500, tier), arena_job("histories-reset-d3-dev2", "reset", 6, 3, 2, 200, tier)]
         return {"level": "model_checking", "jobs": jobs, "owns_crashes": False, "rule": RULE_ARENA, "assumptions": ARENA_ASSUME, "bounds": {"depth": 3 if q else 4, "deviations": 1 if q else 2}}
@@ -57,7 +69,9 @@ def plan(pid, tier):
         return {"level": "fault_enumeration", "jobs": jobs, "owns_crashes": True, "rule": RULE_ARENA + "; faults = Env refusal of the k-th chunk request of the final operation (all k), forced refusal of over-cap / over-aligned requests, allocation limits", "assumptions": ARENA_ASSUME,
                 "bounds": {"prefix_depth": 1 if q else 2, "deviations": 2}, "build_profiles": ("release",) if q else ("release", "dbg")}
     if pid == "C10":
-        jobs = [arena_job("histories-core", "core", 10, 3, 1, 45, tier)] if q else [arena_job("histories-core-d3-dev2", "core", 10, 3, 2, 300, tier), arena_job("histories-core-d4", "core", 10, 4, 1, 500, tier, min_aligns="1,4,16")]
+        jobs = [arena_job("histories-core", "core", 10, 3, 1, 45, tier), arena_job("uniform-exactness", "uniform", 10, 5, 1, 40, tier)] if q else [
+            arena_job("histories-core-d3-dev2", "core", 10, 3, 2, 300, tier), arena_job("histories-core-d4", "core", 10, 4, 1, 500, tier, min_aligns="1,4,16"),
+            arena_job("uniform-exactness-d6", "uniform", 10, 6, 1, 500, tier), arena_job("uniform-exactness-d5-dev2", "uniform", 10, 5, 2, 300, tier)]
         return {"level": "model_checking", "jobs": jobs, "owns_crashes": False, "rule": RULE_ARENA, "assumptions": ARENA_ASSUME, "bounds": {"depth": 3 if q else 4, "deviations": 1 if q else 2}}
     if pid == "C11":
         jobs = [arena_job("prefix2-x-initialisers", "init", 11, 3, 1, 45, tier)] if q else [arena_job("prefix3-x-initialisers", "init", 11, 4, 1, 600, tier), arena_job("prefix2-dev2", "init", 11, 3, 2, 300, tier)]
@@ -65,6 +79,21 @@ def plan(pid, tier):
     if pid == "C12":
         jobs = [arena_job("allocator-api", "allocapi", 12, 3, 1, 45, tier)] if q else [arena_job("allocator-api-d4", "allocapi", 12, 4, 1, 700, tier, min_aligns="1,8,16"), arena_job("allocator-api-d3-dev2", "allocapi", 12, 3, 2, 300, tier)]
         return {"level": "model_checking", "jobs": jobs, "owns_crashes": True, "rule": RULE_ARENA, "assumptions": ARENA_ASSUME, "bounds": {"depth": 3 if q else 4, "deviations": 1 if q else 2}}
+    if pid == "C18":
+        jobs = [grid_job("capacity-compositions", "capacity", 18, tier), grid_job("growth-workloads", "growth", 18, tier, slab_mb=64), arena_job("chunk-capacity-probe", "capprobe", 18, 3, 1, 40, tier)]
+        if not q:
+            jobs = [grid_job("capacity-compositions", "capacity", 18, tier, budget=600), grid_job("growth-workloads", "growth", 18, tier, budget=600, slab_mb=96, threads=8),
+                    arena_job("chunk-capacity-probe-d4", "capprobe", 18, 4, 1, 500, tier, min_aligns="1,8,16"), arena_job("chunk-capacity-probe-d3-dev2", "capprobe", 18, 3, 2, 300, tier)]
+        return {"level": "exploration", "jobs": jobs, "owns_crashes": False, "rule": RULE_GRID + "; plus BFS over arena histories with a terminal probe of exactly chunk_capacity() bytes under a refusing allocator",
+                "assumptions": ARENA_ASSUME + ["'logarithmic' and 'constant factor' are decided on a finite workload grid (volumes up to 2^18 quick / 2^24 thorough) with loose constants: requests <= 2*log2(V/first chunk)+6, held <= 8*occupied + 8 KiB + 2 max requests"],
+                "bounds": {"capacities": "0..=600, 2^k-65..2^k-63 (k=10..20), 4032, 4033, 8128, 8129, 2^16, 2^20", "volume_log2": 18 if q else 24, "probe_depth": 3 if q else 4}}
+    if pid == "C19":
+        jobs = [grid_job("overflow-boundaries", "overflow", 19, tier)]
+        if not q:
+            jobs.append(grid_job("overflow-boundaries-dbg", "overflow", 19, tier, build="dbg"))
+        return {"level": "exploration", "jobs": jobs, "owns_crashes": True, "rule": RULE_GRID, "assumptions": ["Env refuses every request above 1 MiB, so 'cannot be satisfied' is decidable without touching the OS",
+                "counts are taken around usize::MAX/size, isize::MAX/size, isize::MAX rounded by alignment, usize::MAX, and 1 MiB/size; element sizes 0,1,3,8,24,4096 (slices) and 2^20+1, 2^40 (Vec capacity family)"],
+                "bounds": {"entry_points": 29, "element_sizes": 7, "count_classes": 16, "min_align": [1, 2, 4, 8, 16]}, "build_profiles": ("release",) if q else ("release", "dbg")}
     return None
 
 
